@@ -240,6 +240,8 @@ def cache_arg(rng, unhashable=False):
     if unhashable and r < 0.5:
         # a set of ints / an int ndarray, written as a marker string (see `unmark`)
         xs = sorted(rng.sample([1, 2, 3], rng.choice([1, 2])))
+        if r < 0.1:
+            return rng.choice(['~arr:f:ba:97,98', '~arr:f:dq:1,2', '~arr:f:0d:i5', '~arr:f:0d:5', '~arr:f:dq:'])      # bytearray, deque, 0-d arrays: unhashable like an ndarray (K5)
         return ('~set:' if r < 0.25 else '~arr:') + ','.join(map(str, xs))
     if r < 0.12:
         return '~none'           # makes the generated function return None (see `body`)
@@ -298,6 +300,14 @@ def mark(v):
         return '~l1:%d' % len(v) if list(v) == list(range(len(v))) else '~l1?:%r' % (v,)
     if isinstance(v, (set, frozenset)):
         return '~set:' + ','.join(str(int(x)) for x in sorted(v))
+    # round j6: other arguments the key normalisation leaves unhashable, under the prefix the model reads as "unhashable, not an int array":
+    # `~arr:f:ba:97,98` = bytearray(b'ab'), `~arr:f:dq:1,2` = deque([1, 2]); 0-d arrays `~arr:f:0d:i5` = np.array(5), `~arr:f:0d:5` = np.array(5.0) (is_arr wants a dimension: pd2np does not convert them)
+    if isinstance(v, bytearray):
+        return '~arr:f:ba:' + ','.join(str(x) for x in v)
+    if isinstance(v, collections.deque):
+        return '~arr:f:dq:' + ','.join(str(int(x)) for x in v)
+    if isinstance(v, np.ndarray) and v.ndim == 0:
+        return ('~arr:f:0d:' if v.dtype.kind == 'f' else '~arr:f:0d:i') + str(int(v))
     if isinstance(v, np.ndarray):
         # `~arr:1,2` an int array, `~arr:f:1,2` the float array with the same cells (what pd2np's _int2float makes of it)
         return ('~arr:f:' if v.dtype.kind == 'f' else '~arr:') + ','.join(str(int(x)) for x in v)
@@ -321,6 +331,14 @@ def unmark(v, rng=None):
     if isinstance(v, str) and v.startswith('~set:'):
         xs = [int(x) for x in v[5:].split(',') if x]
         return set(reversed(xs))
+    if isinstance(v, str) and v.startswith('~arr:f:ba:'):
+        return bytearray(int(x) for x in v[10:].split(',') if x)
+    if isinstance(v, str) and v.startswith('~arr:f:dq:'):
+        return collections.deque(int(x) for x in v[10:].split(',') if x)
+    if isinstance(v, str) and v.startswith('~arr:f:0d:i'):
+        return np.array(int(v[11:]), dtype=np.int64)
+    if isinstance(v, str) and v.startswith('~arr:f:0d:'):
+        return np.array(float(v[10:]))
     if isinstance(v, str) and v.startswith('~arr:f:'):
         return np.array([float(x) for x in v[7:].split(',') if x], dtype=float)
     if isinstance(v, str) and v.startswith('~arr:'):
@@ -408,11 +426,12 @@ def gen_stackhist(rng, subclasses=False):
     pool = []
     for _ in range(rng.choice([1, 2, 3])):
         a, k = rng.choice(calls)
-        val = lambda: (rng.choice(['~arr:1,2', '~arr:f:1,2', '~arr:3']) if arrays and rng.random() < 0.4 else rng.choice([0, 1, 2, 2.5, True, 'x', None, -3]))
+        val = lambda: (rng.choice(['~arr:1,2', '~arr:f:1,2', '~arr:3', '~arr:f:ba:97,98', '~arr:f:dq:1,2', '~arr:f:0d:i5', '~arr:f:0d:5']) if arrays and rng.random() < 0.4 else rng.choice([0, 1, 2, 2.5, True, 'x', None, -3]))
         if subclasses:
             # round j6: arguments that are dict / list SUBCLASSES whose constructor is not "one mapping / one iterable" (defaultdict, D2, L1),
             # bare, inside a list / tuple / dict, positional or by keyword: an argument is only passed through, the call is valid for f
-            sub = lambda: rng.choice(['~dd:1', '~dd:2', '~d2:1', '~l1:3'])
+            # (contents differ from one class to the other: defaultdict(int, x=1) == D2({'x': 1}, 'e') for python, ONE combination for the cache)
+            sub = lambda: rng.choice(['~dd:1', '~dd:2', '~d2:3', '~l1:3'])
             plain = val
             val = lambda: (rng.choice([sub(), sub(), [sub(), 7], (sub(),), {'p': sub()}]) if rng.random() < 0.6 else plain())
         pool.append(([val() for _ in a], {n: val() for n in k}))
@@ -1013,7 +1032,7 @@ def laws(rng, tier, ctx):
         treats them alike, round j6) - become float, at any depth of list / tuple / dict; int8 / uint arrays stay as they are.  A container
         none of whose members changes is the argument ITSELF; otherwise a copy of it with the changed members (class and attributes kept)"""
         ints = (np.dtype(np.int16), np.dtype(np.int32), np.dtype(np.int64))
-        if isinstance(v, (np.ndarray, pd.Series)) and v.dtype in ints:
+        if isinstance(v, (np.ndarray, pd.Series)) and v.ndim > 0 and v.dtype in ints:
             return v.astype(float)
         if isinstance(v, pd.DataFrame):
             cols = {c: float for c, t in dict(v.dtypes).items() if t in ints}
@@ -1039,7 +1058,8 @@ def laws(rng, tier, ctx):
                 lambda: [collections.defaultdict(int, x=1), 2], lambda: {'k': L1(2)}, lambda: (D2({'x': 1}, 'e'),), lambda: collections.OrderedDict(b=1, a=2),
                 # round j6: pandas objects as NON-first arguments of pd2np (int Series / int columns are converted like int arrays: K6)
                 lambda: pd.Series([1, 2]), lambda: pd.Series([1.5, 2.5]), lambda: pd.DataFrame({'a': [1, 2], 'b': [1.5, 2.5]}), lambda: [pd.Series([1, 2], dtype=np.int32), 3],
-                lambda: collections.defaultdict(int, x=np.array([1, 2]))]
+                lambda: collections.defaultdict(int, x=np.array([1, 2])),
+                lambda: bytearray(b'ab'), lambda: collections.deque([1, 2]), lambda: np.array(5), lambda: [np.array(5), collections.deque([np.array([1, 2])])]]
     for sig, args, kw in rng.sample(allcalls, 150 if tier == 'quick' else len(allcalls)):
         if not args and not kw:
             continue
